@@ -67,13 +67,13 @@ def plan_for(ops, tier, rnd):
     return inj, exhaustive, K
 
 
-def run_injection(built, proj, expected, k, action, rules, xdev=False):
+def run_injection(built, proj, expected, k, action, rules, xdev=False, stdio=False, reads=False):
     import shutil
     with core.Box(tag="c07") as box:
         cfg = proj.materialise(box)
         td = fault.foreign_tmpdir(box) if xdev else None
         try:
-            rec = core.run_breadlog(built, box, cfg, rules=rules, timeout=120, tmpdir=td)
+            rec = core.run_breadlog(built, box, cfg, rules=rules, timeout=120, tmpdir=td, stdio_ops=stdio, read_ops=reads)
         finally:
             if td:
                 shutil.rmtree(td, ignore_errors=True)
@@ -86,12 +86,21 @@ def run_injection(built, proj, expected, k, action, rules, xdev=False):
 def work(job):
     built, pi, proj, expected, k, action, rules, phase = job[:8]
     xdev = job[8] if len(job) > 8 else False
+    stdio = job[9] if len(job) > 9 else False
+    reads = str(action).startswith("read-") or action == "all-reads-short"
     res = {"evaluations": 1, "nontrivial": [], "violations": [], "samples": [], "inconclusive": {}, "counters": {}}
-    rec, states, other, fired = run_injection(built, proj, expected, k, action, rules, xdev)
+    rec, states, other, fired = run_injection(built, proj, expected, k, action, rules, xdev, stdio, reads)
+    if reads:
+        res["counters"]["read_fault_injections"] = 1
     if xdev:
         phase = "xdev:" + phase
         res["counters"]["cross_device_tmpdir_injections"] = 1
-    if action.startswith("short+"):
+    if reads:
+        pass
+    elif action in ("stall+kill", "stall+EIO"):
+        res["counters"]["stalled_write_injections"] = 1
+        fired = [o for o in fired if o["fired"].startswith("kill")] or fired
+    elif action.startswith("short+"):
         res["counters"]["partial_failure_injections"] = 1
         fired = fired if len(fired) >= 2 else []
     elif ";" in (rules or ""):
@@ -107,7 +116,7 @@ def work(job):
             return res
         res["inconclusive"]["injection did not fire"] = 1
         return res
-    if rec.panicked():
+    if rec.panicked() and action != "EPIPE-on-log-line":
         res["inconclusive"]["run-panicked (C17's business)"] = 1
     res["nontrivial"].append("%s|%s|%s|%s" % (proj.label, k, action, "x" if xdev else ""))
     res["counters"]["fired_%s" % (action if action.startswith("kill") or action == "short" else ("persistent" if action.startswith("persistent") else "errno"))] = 1
@@ -117,7 +126,7 @@ def work(job):
     # online trace rule: nothing is written through a name that is already a source file
     through = [o for o in (rec.shim or []) if fault.phase_of(o) in TRACE_RULE_PHASES]
     torn = {rel: s for rel, s in states.items() if s.startswith("torn")}
-    act_class = action if action in ("kill-before", "kill-after", "short") else "short+errno" if action.startswith("short+") else ("persistent-errno" if action.startswith("persistent") else ("errno+kill" if "+kill" in action else "errno"))
+    act_class = action if (action in ("kill-before", "kill-after", "short", "EPIPE-on-log-line", "all-reads-short", "stall+kill", "stall+EIO") or action.startswith("read-")) else "short+errno" if action.startswith("short+") else ("persistent-errno" if action.startswith("persistent") else ("errno+kill" if "+kill" in action else "errno"))
     for rel, s in sorted(torn.items()):
         res["violations"].append({"signature": "C07.%s|%s|%s" % (s, act_class, phase),
                                   "detail": {"file": rel, "state": s, "k": k, "action": action, "phase": phase, "end": rec.ended(),
@@ -235,6 +244,29 @@ def main(tier):
                 o = rec1.shim[j - 1]
                 for act in ("kill-before", "kill-after"):
                     jobs.append((built, pi, proj, expected, "%d+%d" % (k, j), a + "+" + act, "%s;n=%d,act=%s" % (r, j, act), fault.phase_of(o)))
+        # stdout is a pipe whose reader has gone away: the k-th log line fails with EPIPE, println! panics, the process unwinds
+        # (destructors run) - for every log line of the clean run
+        sops, _, _, _, _ = fault.clean_reference(built, proj, stdio_ops=True)
+        for o in sops:
+            if o["kind"] == "stdio":
+                jobs.append((built, pi, proj, expected, o["n"], "EPIPE-on-log-line", "n=%d,kind=stdio,act=errno:32" % o["n"], "log-line", False, True))
+        # a write to the scratch file that stalls for seconds (hung NFS / FUSE mount) with the process killed right after the rename:
+        # whatever the run does while it waits, the source must not name an incomplete file
+        if pi < 3:
+            # per scratch file: its last write (the one the final flush issues) and, for the first file, its first write
+            lastw = {}
+            for o in ops:
+                if fault.phase_of(o) == "tmp-write":
+                    lastw[o["path"]] = o["n"]
+            tw = [o["n"] for o in ops if fault.phase_of(o) == "tmp-write"]
+            for k in sorted(set(list(lastw.values())[:3] + tw[:1])):
+                jobs.append((built, pi, proj, expected, k, "stall+kill", "n=%d,act=delay:6500;from=%d,kind=rename,path~=breadlog-,act=kill-after" % (k, k), "tmp-write"))
+                # ... or the stalled write finally fails (EIO after a soft-mount time-out): the file must not be replaced
+                jobs.append((built, pi, proj, expected, k, "stall+EIO", "n=%d,act=slowerr:5" % k, "tmp-write"))
+        # faults on the read side: every read(2) on a source file fails / is short / is short and then fails
+        rops, _, _, _, _ = fault.clean_reference(built, proj, read_ops=True)
+        for label, rules in fault.read_fault_rules(rops):
+            jobs.append((built, pi, proj, expected, label.split("@")[-1], label.split("@")[0], rules, "src-read"))
         # persistent faults: every rename (temp create, temp write) fails with E for the whole run
         for e in ("EIO", "EACCES", "EPERM", "EXDEV", "ENOSPC", "EBUSY", "EEXIST"):
             for kind, scope in (("rename", "kind=rename,path~=breadlog-"), ("openw", "kind=openw,path~=breadlog-"), ("write", "kind=write,path~=breadlog-")):
@@ -337,7 +369,7 @@ def replay_witness(w, ck=None, built=None):
     if not c.get("rules"):
         return any(fault.phase_of(o) in TRACE_RULE_PHASES for o in ops)
     phase = "?"
-    r = work((built, c["project"], proj, expected, c["k"], c["action"], c["rules"], phase, c.get("xdev", False)))
+    r = work((built, c["project"], proj, expected, c["k"], c["action"], c["rules"], phase, c.get("xdev", False), c.get("action") == "EPIPE-on-log-line"))
     return bool(r["violations"])
 
 
